@@ -25,6 +25,8 @@ type Config struct {
 	Splits          string   `json:"splits,omitempty"`           // "": none reachable; "synth": synthetic split table (see splits.go)
 	Invalid         []string `json:"invalid,omitempty"`          // labels configured as invalid header hashes
 	Prefix          int      `json:"prefix,omitempty"`           // a straight chain G/a/a/... of this height is submitted before the explored history starts
+	InvalidLater    []string `json:"invalid_later,omitempty"`    // labels appended to the configured invalid hashes from the first restart on (the operator extends the list between runs)
+	ObserveReads    bool     `json:"observe_reads,omitempty"`    // call the lookup API for every accepted header and height after every operation (a read must not influence later answers)
 	ObserveLocators bool     `json:"observe_locators,omitempty"` // request the locators after every operation, the way peers are polled between events (a read must not influence later answers)
 }
 
@@ -96,6 +98,7 @@ type World struct {
 
 	Submitted    map[string]bool
 	Marked       []bitcoin.Hash32 // model of the invalid list (order of marking)
+	restarts     int              // number of reloads so far
 	Forgot       bool             // memory was reduced by a small-depth prune or a reload
 	MinDepth     int              // smallest prune depth applied so far (0: never pruned)
 	PruneFloor   int              // highest "best height - prune depth" over all prunes so far: what lies below may be gone from memory
@@ -143,6 +146,11 @@ func (w *World) headersConfig() *headers.Config {
 	c := &headers.Config{Network: bitcoin.MainNet, MaxBranchDepth: w.Cfg.MaxBranchDepth}
 	for _, l := range w.Cfg.Invalid {
 		c.InvalidHeaderHashes = append(c.InvalidHeaderHashes, Get(l).Hash)
+	}
+	if w.restarts > 0 {
+		for _, l := range w.Cfg.InvalidLater {
+			c.InvalidHeaderHashes = append(c.InvalidHeaderHashes, Get(l).Hash)
+		}
 	}
 	return c
 }
@@ -350,8 +358,16 @@ func (w *World) Apply(op Op) *Step {
 		st.Mutated = w.Store.StopLog()
 		if err == nil && p == "" {
 			w.noteSaved()
+			w.restarts++
 			w.Repo = w.NewRepo()
 			w.Subs = nil // subscriptions belong to the old instance
+			if w.restarts == 1 {
+				// hashes configured from this run on: refused when offered later (a header that is
+				// already held stays)
+				for _, l := range w.Cfg.InvalidLater {
+					w.Marked = append(w.Marked, Get(l).Hash)
+				}
+			}
 			if op.K == "reload" {
 				w.notePrune(10000)
 				err, p = Safe(func() error { return w.Repo.Load(w.Ctx) })
@@ -436,6 +452,35 @@ func (w *World) Apply(op Op) *Step {
 		st.Batches = append(st.Batches, batch)
 	}
 	st.PostTip = w.tipHash()
+	if w.Cfg.ObserveReads {
+		Safe(func() error {
+			// in reverse of the order the oracles use, so that the last lookup here is the first one there
+			nodes := w.Tree.Sorted()
+			for i := len(nodes) - 1; i >= 0; i-- {
+				h := bitcoin.Hash32(nodes[i].Hash)
+				w.Repo.PreviousHash(h)
+				w.Repo.GetHeader(w.Ctx, h)
+				w.Repo.CheckHeader(w.Ctx, h)
+				w.Repo.HashHeight(h)
+			}
+			tip := w.Repo.Height()
+			for h := tip + 1; h >= 0 && h >= tip-12; h-- {
+				w.Repo.Header(w.Ctx, h)
+				w.Repo.Hash(w.Ctx, h)
+			}
+			for _, h := range []int{1001, 1000, 999, 2, 1, 0} {
+				if h < tip-12 {
+					w.Repo.Header(w.Ctx, h)
+					w.Repo.Hash(w.Ctx, h)
+				}
+			}
+			w.Repo.GetHeaders(w.Ctx, 0, 5)
+			w.Repo.LastHash()
+			w.Repo.LastTime()
+			w.Repo.AccumulatedWork()
+			return nil
+		})
+	}
 	if w.Cfg.ObserveLocators {
 		Safe(func() error {
 			// the same request every time, the way a poll repeats the previous poll
